@@ -25,7 +25,7 @@ CLAIMS = {
                 text="Held on the exhaustive sub-space (24 integer targets x [-70000,70000] x quoted/unquoted) plus N random literals (radix 2/8/10/16, underscores, suffixes, 1..60 digits, type boundaries +-2, floats, bool/char/string forms) converted by all 30 scalar targets; reference is str::parse::<T> of the denoted value known to the generator; errors must be spanned inside the item.",
                 note="Trusts Rust's str::parse as the standard parsing the property names and syn's lexer for delivering the literal; items are classified by the syn::Expr variant darling is handed."),
     "C14": dict(engine="direct",
-                text="Held on N random item lists converted by all 30 map instantiations; success, entries, leaf count and per-item leaf attribution compared with a model (re-implemented key conversion, differential value acceptance); Hash/BTree agreement per input.",
+                text="Held on N random item lists converted by all 35 map instantiations; success, entries, leaf count and per-item leaf attribution compared with a model (re-implemented key conversion, differential value acceptance); Hash/BTree agreement per input.",
                 note="Value acceptance is taken from V::from_meta on the same item (C11/C13 decide those conversions)."),
     "C12": dict(engine="direct",
                 text="Held on 1430 wrapper types (10 wrappers, all 100 two-level compositions, 13 inner targets) x N random meta items: each outcome compared with a compositional model applied to the inner type's own outcome on the same item; SpannedValue range, WithOriginal copy, from_none, Flag and IdentString checked.",
